@@ -161,6 +161,8 @@ def schema_string_check():
     layouts = [("i/{i}/f/{f}/s/{s}/b/{b}", "i/{i:int}/f/{f:float}/s/{s}/b/{b:bool}", sps),
                ("b_{b}/n_{i}", "b_{b:bool}/n_{i:int}", [{"b": b, "i": i} for b in (True, False) for i in (0, 3)]),
                ("flag/{b}", "flag/{b:bool}", [{"b": True}, {"b": False}]),
+               ("a.b/{a.b}/a.c/{a.c}", "a.b/{a.b:int}/a.c/{a.c:int}", [{"a": {"b": 1, "c": 2}}, {"a": {"b": 1, "c": 3}}, {"a": {"b": 2, "c": 2}}]),
+               ("n.x.y/{n.x.y}/n.x.z/{n.x.z}/n.w/{n.w}", "n.x.y/{n.x.y:int}/n.x.z/{n.x.z}/n.w/{n.w:float}", [{"n": {"x": {"y": 1, "z": "u"}, "w": 0.5}}, {"n": {"x": {"y": 2, "z": "u"}, "w": 0.5}}]),
                ("x/{f}", "x/{f:float}", [{"f": 0.5}, {"f": 12.0}, {"f": 3.25}]),
                ("k/{s}/v/{i}", "k/{s:str}/v/{i:int}", [{"s": "ab", "i": 1}, {"s": "ab", "i": 10}, {"s": "a_b", "i": 1}])]
     for path, schema, universe in layouts:
